@@ -333,14 +333,15 @@ def finish(prop, tier, seed, level, rule, results, t0, assumptions, min_events=N
             bykey.setdefault(v["key"], []).append(v)
     new_violations = []
     known_hits = []
-    os.makedirs(os.path.join(VERIF, "replays"), exist_ok=True)
+    replay_dir = os.environ.get("VERIF_REPLAY_DIR", os.path.join(VERIF, "replays"))
+    os.makedirs(replay_dir, exist_ok=True)
     for key, vs in sorted(bykey.items()):
         e = match_known(known, prop, key)
         if e is not None:
             known_hits.append((key, e, len(vs)))
             continue
         h = hashlib.sha1(key.encode()).hexdigest()[:10]
-        rp = os.path.join(VERIF, "replays", "%s-%s.json" % (prop, h))
+        rp = os.path.join(replay_dir, "%s-%s.json" % (prop, h))
         with open(rp, "w") as f:
             json.dump({"property": prop, "key": key, "count": len(vs), "first": vs[0], "tier": tier,
                        "replay": "./check %s --replay %s" % (prop, rp)}, f, indent=1, default=str)
@@ -368,8 +369,9 @@ def finish(prop, tier, seed, level, rule, results, t0, assumptions, min_events=N
         cov.update(extra_cov)
     ev = {"property_id": prop, "tier": tier, "seed": int(seed), "level": level, "coverage": cov,
           "assumptions": assumptions, "wall_s": round(time.time() - t0, 2), "violations": len(new_violations)}
-    os.makedirs(os.path.join(VERIF, "evidence"), exist_ok=True)
-    with open(os.path.join(VERIF, "evidence", "%s.json" % prop), "w") as f:
+    evidence_dir = os.environ.get("VERIF_EVIDENCE_DIR", os.path.join(VERIF, "evidence"))
+    os.makedirs(evidence_dir, exist_ok=True)
+    with open(os.path.join(evidence_dir, "%s.json" % prop), "w") as f:
         json.dump(ev, f, indent=1, default=str)
         f.write("\n")
 
